@@ -301,13 +301,14 @@ Proof.
         { intros ci Hsi Hdi [Hse| ->].
           - exists a, (N.max m (nf_serial nf)). cbn [with_content l_session l_serial l_content].
             repeat split; try assumption; [lia|].
-            right. unfold hw_after. rewrite En. cbn [hw_lookup]. rewrite Hse, N.eqb_refl.
-            exists (nf_serial nf). split; [reflexivity|].
-            destruct Hb as [->|(mm & Hl & Hmm)].
-            + destruct (N.max_spec (l_serial l) (nf_serial nf)) as [[_ ->]|[Hge ->]]; [lia|].
-              (* the notified serial is below the stored one: nothing of this session was followed *)
-              lia.
-            + rewrite <- Hse in Hl. specialize (Hm _ Hl). lia.
+            assert (Hnew : hw_lookup (hw_after hw st) (l_session l) = Some (nf_serial nf)).
+            { unfold hw_after. rewrite En. cbn [hw_lookup]. rewrite Hse, N.eqb_refl. reflexivity. }
+            destruct Hb as [Em|(mm & Hl & Hmm)].
+            + destruct (N.le_gt_cases (nf_serial nf) (l_serial l)) as [Hle|Hgt].
+              * left. lia.
+              * right. exists (nf_serial nf). split; [exact Hnew | lia].
+            + right. exists (nf_serial nf). split; [exact Hnew|].
+              rewrite <- Hse in Hl. specialize (Hm _ Hl). lia.
           - destruct l; exact Hinv'. }
         destruct r as [reason|].
         -- (* snapshot *)
@@ -378,6 +379,13 @@ Proof.
 Qed.
 
 (* one run, possibly killed *)
+Lemma firstn_In' {A} (x : A) : forall n l, In x (firstn n l) -> In x l.
+Proof.
+  induction n as [|n IH]; intros [|y l] H; cbn [firstn] in H; try destruct H.
+  - left; assumption.
+  - right; apply IH; assumption.
+Qed.
+
 Lemma crun_correct local st kill :
   step_facts st -> inv24 g hw local ->
   let o := crun cfg local st kill in
@@ -386,15 +394,14 @@ Proof.
   intros Hf Hinv. cbv zeta.
   destruct (run_step_correct24 local st Hf Hinv) as (Hok & Hi & Hkp).
   unfold crun, cstep_okb. destruct kill as [n|].
-  - destruct ((1 <=? n) && (n <=? N.of_nat (length (run_kp all_fixes cfg local (resolve local st))))) eqn:En.
+  - match goal with |- context [if ?b then _ else _] => destruct b eqn:En end.
     + cbn [co_killed co_obs o_local]. split; [reflexivity|].
-      set (passed := firstn (N.to_nat n) (run_kp all_fixes cfg local (resolve local st))).
-      destruct (rev passed) as [|[lab stt] r] eqn:Er.
+      match goal with |- context [rev ?p] => destruct (rev p) as [|[lab stt] r] eqn:Er end.
       * apply inv24_hw_after; [exact (proj1 (proj2 (proj2 Hf))) | exact Hinv].
       * apply (Hkp lab stt).
-        assert (Hin : In (lab, stt) passed).
+        match type of Er with rev ?p = _ => assert (Hin : In (lab, stt) p) end.
         { apply in_rev. rewrite Er. left. reflexivity. }
-        unfold passed in Hin. eapply In_firstn_incl. exact Hin.
+        eapply firstn_In'. exact Hin.
     + cbn [co_killed co_obs]. split; assumption.
   - cbn [co_killed co_obs]. split; assumption.
 Qed.
